@@ -39,6 +39,9 @@ def c06(ctx):
     ctx.model(MC, "MC_Tcp_C06.cfg")
     ctx.sim("sched", 250 if q else 4000, LOOP, "MonLoop_C06.cfg", nontrivial=has_genuine, conf=CONF)
     ctx.sim("loop", 150 if q else 3000, LOOP, "MonLoop_C06.cfg", seed_off=1, nontrivial=has_genuine, conf=CONF)
+    # TCP port collisions: a re-issued probe keeps its TTL
+    ctx.sim("fault", 200 if q else 3000, LOOP, "MonLoop_C06.cfg", seed_off=2, nontrivial=has_fault, conf=CONF)
+    ctx.sim("storm", 40 if q else 400, LOOP, "MonLoop_C06.cfg", seed_off=3, nontrivial=has_fault, conf=CONF)
     ctx.write_evidence("model_checking", MODEL_RULE + "distinct (family, configuration cell, topology/ttl shape) of scenarios with >= 1 genuine response handed to the tracer",
                        assumptions=LOOP_ASSUME)
 
@@ -84,9 +87,49 @@ def c10(ctx):
     ctx.write_evidence("model_checking", MODEL_RULE + "distinct (family, cell, shape) of scenarios with >= 1 genuine response", assumptions=LOOP_ASSUME)
 
 
-PROPS = {"C01": c01, "C03": c03, "C06": c06, "C08": c08, "C09": c09, "C10": c10}
+def c07(ctx):
+    q = ctx.quick()
+    SEQ = "mc/MC_Seq.tla"
+    ctx.model(SEQ, "MC_Seq_udp.cfg" if q else "MC_Seq_udp_all.cfg", workers=12)
+    ctx.model(SEQ, "MC_Seq_tcp.cfg", workers=12)
+    ctx.model(SEQ, "MC_Seq_tcp_low.cfg", workers=12)
+    ctx.model(SEQ, "MC_Seq_F6.cfg", workers=4, expect_violation="NoPrevReissuedA", label="MC_Seq_F6 (known finding F6)")
+    # spec -> impl: TLC-generated walks replayed into the real TracerState, then impl -> spec: the log is validated
+    walks = os.path.join(WORK, "runs", "C07-walks.txt")
+    os.makedirs(os.path.dirname(walks), exist_ok=True)
+    gen_walks(ctx, walks, 60 if q else 600)
+    ctx.sim("seqwalk", 8 if q else 150, "mon/MonSeq.tla", "MonSeq.cfg", subcmd="seqwalk", extra_args=["--walks", walks], batch=50 if not q else 8)
+    ctx.sim("storm", 120 if q else 1500, LOOP, "MonLoop_C07.cfg", nontrivial=has_fault, conf=CONF)
+    ctx.write_evidence("model_checking", "model: SeqAlloc.tla at the real constants (65535 / 512), every round size in the named set from every reachable round-start sequence; "
+                       "implementation: distinct (regime, initial sequence, walk length) walks over the real TracerState + distinct TCP collision-storm scenarios in which the fault fired",
+                       assumptions=LOOP_ASSUME + ["walks call the private TracerState through the add-only verif-hooks wrapper TracerStateProbe"])
 
-MONITOR_OF = {"C01": (LOOP, "MonLoop_C01.cfg"), "C03": (LOOP, "MonLoop_C03.cfg"), "C06": (LOOP, "MonLoop_C06.cfg"),
+
+def gen_walks(ctx, path, num):
+    import subprocess
+    from vlib import SPEC, JAVA_OPTS
+    out = []
+    for cfg in ("MC_SeqGen_udp.cfg", "MC_SeqGen_tcp.cfg"):
+        env = dict(os.environ, JAVA_TOOL_OPTIONS=JAVA_OPTS)
+        meta = os.path.join(WORK, "tlc", "C07-gen-" + cfg)
+        r = subprocess.run(["timeout", "300", "tlc", "-workers", "1", "-simulate", "num=%d" % num, "-depth", "41", "-seed", str(ctx.seed),
+                            "-metadir", meta, "-noGenerateSpecTE", "-config", cfg, "MC_SeqGen.tla"],
+                           cwd=os.path.join(SPEC, "mc"), env=env, stdout=subprocess.PIPE, stderr=subprocess.STDOUT, text=True)
+        lines = [l for l in r.stdout.splitlines() if l.startswith('<<"WALK"')]
+        if not lines:
+            raise ToolError("TLC produced no walks (%s): %s" % (cfg, r.stdout[-800:]))
+        out += lines
+        import shutil
+        shutil.rmtree(meta, ignore_errors=True)
+    with open(path, "w") as f:
+        f.write("\n".join(out) + "\n")
+    ctx.cov["tlc_generated_behaviours_replayed"] = len(out)
+    log("gen   %d TLC-generated walks (MC_SeqGen, -simulate) to replay into the real TracerState" % len(out))
+
+
+PROPS = {"C07": c07, "C01": c01, "C03": c03, "C06": c06, "C08": c08, "C09": c09, "C10": c10}
+
+MONITOR_OF = {"C07": (LOOP, "MonLoop_C07.cfg"), "C01": (LOOP, "MonLoop_C01.cfg"), "C03": (LOOP, "MonLoop_C03.cfg"), "C06": (LOOP, "MonLoop_C06.cfg"),
               "C08": (LOOP, "MonLoop_C08.cfg"), "C09": (LOOP, "MonLoop_C09.cfg"), "C10": (LOOP, "MonLoop_C10.cfg")}
 
 
